@@ -1,4 +1,4 @@
-CONSTANTS P = 67  A = 0  B = 2  Gx = 2  Gy = 12  N = 73  Iterated = FALSE
+CONSTANTS P = 67  A = 0  B = 2  Gx = 2  Gy = 12  N = 73  Scope = "full"  Iterated = FALSE
 SPECIFICATION Spec
 INVARIANT GroupLaw
 CHECK_DEADLOCK FALSE
